@@ -4564,6 +4564,11 @@ _dispatch_workloop_push_waiter(dispatch_workloop_t dwl,
 		qos = DISPATCH_QOS_DEFAULT;
 	}
 
+	// Once dsc is linked into the workloop its waiter can be woken and return:
+	// dsc lives on the waiter's stack and may only be touched again by the
+	// waiter itself
+	bool waiter_is_self = (dsc->dsc_waiter == _dispatch_tid_self());
+
 	prev = _dispatch_workloop_push_update_tail(dwl, qos, dc);
 	_dispatch_workloop_push_update_prev(dwl, qos, prev, dc);
 	if (likely(!os_mpsc_push_was_empty(prev))) return;
@@ -4587,7 +4592,9 @@ _dispatch_workloop_push_waiter(dispatch_workloop_t dwl,
 		}
 	});
 
-	dsc->dsc_wlh_was_first = (dsc->dsc_waiter == _dispatch_tid_self());
+	if (waiter_is_self) {
+		dsc->dsc_wlh_was_first = true;
+	}
 
 	if ((old_state ^ new_state) & DISPATCH_QUEUE_IN_BARRIER) {
 		return _dispatch_workloop_barrier_complete(dwl, qos, 0);
